@@ -188,7 +188,7 @@ impl FormMultipartData {
         // body for specific part may end with a new line or carriage return and a new line
         // in both cases new line carriage return delimiter is not part of the body
         let body_length = part.body.len();
-        if body_length > 2 { // check if body itself is present
+        if body_length >= 2 { // check if delimiter is present, body itself may be empty
             let is_new_line_carriage_return_ending =
                 *part.body.get(body_length-2).unwrap() == b'\r'
                     && *part.body.get(body_length-1).unwrap() == b'\n';
